@@ -9,6 +9,7 @@ import (
 
 	"github.com/bartossh/Computantis/src/aeswrapper"
 	"github.com/bartossh/Computantis/src/fileoperations"
+	"github.com/bartossh/Computantis/src/wallet"
 	"verif.local/harness/common"
 )
 
@@ -216,4 +217,81 @@ func replayHistory(w map[string]any) int {
 	}
 	fmt.Println("  REPRODUCED")
 	return 1
+}
+
+// runRetention: what an encoding or a read returned must not change when further wallets are encoded or read
+// afterwards (results are kept across the later calls and compared at the end). Sequential, deterministic.
+func runRetention(root string) ([]histFinding, int, error) {
+	var out []histFinding
+	calls := 0
+	// (a) encodings kept while the other wallets are encoded
+	var encs [][]byte
+	for i := 0; i < nWallets; i++ {
+		w := fixedWallet(i)
+		b, err := w.EncodeGOB()
+		if err != nil {
+			return nil, calls, fmt.Errorf("EncodeGOB of a legal wallet: %w", err)
+		}
+		encs = append(encs, b)
+		calls++
+	}
+	for round := 0; round < 2; round++ {
+		for i := 0; i < nWallets; i++ {
+			want := fixedWallet(i)
+			got, err := wallet.DecodeGOBWallet(encs[i])
+			calls++
+			if err != nil || !sameWallet(&want, &got) {
+				out = append(out, histFinding{20000000 + i, common.Violation{Predicate: "C20.roundtrip", Key: "C20.roundtrip/encoding-changed-after-later-encodings",
+					What:    fmt.Sprintf("the GOB encoding returned for wallet #%d no longer decodes to that wallet after the other wallets were encoded (err=%v): the returned bytes are not the caller's own", i, err),
+					Witness: map[string]any{"mode": "retention", "wallet": i}}})
+			}
+		}
+		// encode everything once more in between (a second round over re-used buffers)
+		for i := nWallets - 1; i >= 0; i-- {
+			w := fixedWallet(i)
+			w.EncodeGOB()
+			calls++
+		}
+	}
+	// (b) files saved one after the other (different wallets, different keys), all read back afterwards
+	sealer := aeswrapper.New()
+	dir := filepath.Join(root, "retention")
+	if err := os.MkdirAll(dir, 0o755); err != nil {
+		return nil, calls, err
+	}
+	keys := [][]byte{fixedKey(16), fixedKey(32)}
+	type saved struct {
+		wi  int
+		key []byte
+		h   fileoperations.Helper
+	}
+	var all []saved
+	for i := 0; i < nWallets; i++ {
+		for _, k := range keys {
+			h := fileoperations.New(fileoperations.Config{WalletPath: filepath.Join(dir, fmt.Sprintf("w%d-%d", i, len(k))), WalletPasswd: hex.EncodeToString(k)}, sealer)
+			w := fixedWallet(i)
+			if err := h.SaveWallet(&w); err != nil {
+				return nil, calls, fmt.Errorf("SaveWallet of a legal wallet: %w", err)
+			}
+			all = append(all, saved{i, k, h})
+			calls++
+		}
+	}
+	var got []wallet.Wallet
+	var errs []error
+	for _, s := range all {
+		w, err := s.h.ReadWallet()
+		got = append(got, w)
+		errs = append(errs, err)
+		calls++
+	}
+	for n, s := range all {
+		want := fixedWallet(s.wi)
+		if errs[n] != nil || !sameWallet(&want, &got[n]) {
+			out = append(out, histFinding{20001000 + n, common.Violation{Predicate: "C20.roundtrip", Key: "C20.roundtrip/wallets-saved-in-a-row",
+				What:    fmt.Sprintf("wallet #%d saved with a %d-byte key (one of %d wallets saved one after the other) read back as err=%v same=%v", s.wi, len(s.key), len(all), errs[n], errs[n] == nil && sameWallet(&want, &got[n])),
+				Witness: map[string]any{"mode": "retention", "wallet": s.wi}}})
+		}
+	}
+	return out, calls, nil
 }
